@@ -22,7 +22,11 @@ def module_meta(path):
     for node in tree.body:
         if isinstance(node, ast.Assign) and len(node.targets) == 1 and isinstance(node.targets[0], ast.Name):
             if node.targets[0].id in ("ID", "LEVEL", "MANIFEST"):
-                out[node.targets[0].id] = ast.literal_eval(node.value)
+                v = node.value
+                if isinstance(v, ast.Call) and getattr(v.func, "id", "") == "dict":
+                    out[node.targets[0].id] = {k.arg: ast.literal_eval(k.value) for k in v.keywords}
+                else:
+                    out[node.targets[0].id] = ast.literal_eval(v)
     return out
 
 
